@@ -434,7 +434,54 @@ def phase_leave(args):
                 last[addr] = ids[-1] if ids else last.get(addr, 0)
         finally:
             loop.dispose()
-    return dict(phase="leave", states=7, transitions=n, viols=viols[:20], nviols=len(viols))
+    # two service endpoints announced through one SD endpoint, all three sending to one and the same address: each of
+    # the three senders numbers what it sends to that address by itself, 1, 2, 3, ...
+    for announce_first in (True, False):
+        loop = VLoop().install()
+        try:
+            prot = make_sd(loop)
+            prot.start()
+            loop.settle()
+            svcs = []
+            same = ("192.0.2.43", 3043)
+            ep = hdr.IPv4EndpointOption(ipaddress.IPv4Address(same[0]), hdr.L4Protocols.UDP, same[1])
+            for k in range(2):
+                s_, eg_ = make_service(loop)
+                eg_.values[1] = bytes([k])
+                svcs.append((s_, eg_))
+            if announce_first:
+                for s_, eg_ in svcs:
+                    s_.start_announce(prot.announcer)
+            for s_, eg_ in svcs:
+                eg_.subscribe(ep)
+                loop.settle()
+            if not announce_first:
+                for s_, eg_ in svcs:
+                    s_.start_announce(prot.announcer)
+            for rnd in range(3):
+                prot.send_sd([ENTRY], remote=same)
+                for s_, eg_ in svcs:
+                    eg_.notify_once([1])
+                    loop.settle()
+            loop.settle()
+            senders = [("SD endpoint", prot.transport)] + [(f"service endpoint {k}", s_.transport) for k, (s_, eg_) in enumerate(svcs)]
+            for who, tr in senders:
+                want = 1
+                for _, _, data, addr in tr.sent:
+                    if addr != same:
+                        continue
+                    msgs, err, _ = refcodec.dec_someip_all(data)
+                    for m in msgs:
+                        n += 1
+                        if m["session"] != want:
+                            viols.append(("sequence", "shared-between-senders", f"{who} (services announced "
+                                          f"{'before' if announce_first else 'after'} the subscription): message to {same} carries id "
+                                          f"{m['session']}, expected {want}", None))
+                            want = m["session"]
+                        want = want % 0xFFFF + 1
+        finally:
+            loop.dispose()
+    return dict(phase="leave", states=9, transitions=n, viols=viols[:20], nviols=len(viols))
 
 
 def phase_reentrant(args):
